@@ -259,9 +259,13 @@ def _run(a, pid, tier, seed, t0):
     # a model history whose fresh-process file was never compared with the history's (the two did not denote the same Canon): the
     # replay harness and the trace specification disagree about the specification - reported as drift, never silently vacuous
     for tid_, v in verdicts.items():
-        if byid[tid_].get('meta', {}).get('kind') == 'writehist' and v['cnt'].get('cmp', 0) == 0 \
+        if byid[tid_].get('meta', {}).get('kind') in ('writehist', 'defaultshist') and v['cnt'].get('cmp', 0) == 0 \
                 and not any(c in ('C15.Writable',) for c, _ in v['clauses']):
-            drift.append(f"WriteHistory: scenario {tid_}: the file of the fresh process was not compared with the file of the history (different Canon)")
+            drift.append(f"{'WriteHistory' if byid[tid_]['meta']['kind'] == 'writehist' else 'DerivedDefaults'}: scenario {tid_}: the file of the fresh process was not compared with the file of the history (different Canon)")
+    # scenarios claimed valid whose write was refused, in a check that does not judge writability: not a violation of this property,
+    # but either the generator is wrong or the library refuses a valid specification - said aloud (the C15 / C12 / C20 checks judge it)
+    refused = sorted(tid_ for tid_, v in verdicts.items()
+                     if any(c == 'C15.Writable' for c, _ in v['clauses']) and not any(c == 'C15.Writable' and relevant(pid, c, byid[tid_]) for c, _ in v['clauses']))
     wall = time.time() - t0
     out_lines = []
     for k in known_seen.values():
@@ -278,6 +282,8 @@ def _run(a, pid, tier, seed, t0):
         log(f"   clauses: {sorted(set(c for c, _ in um))} scenario {prog['id']} meta={prog.get('meta')}")
     for d in drift[:10]:
         out_lines.append(f"MODEL-DRIFT property={pid} {d}")
+    if refused:
+        out_lines.append(f"NOTE property={pid} {len(refused)} scenario(s) claimed valid were refused by the library (judged by C15, not by this check): {', '.join(refused[:5])}")
     samples = []
     for p in programs[:: max(1, len(programs) // 3)][:3]:
         s = json.dumps({'id': p['id'], 'meta': p.get('meta'), 'steps': p.get('steps') or p.get('procs')})
